@@ -31,7 +31,8 @@ Sym(c) ==
      /\ amb => PrintT("@@" \o ToJson([kind |-> "AMBIGUOUS", cid |-> cid, hist |-> Append(hist, c), top |-> Head(cfg.K).f]))
      /\ \E c2 \in Eager(LangByte(M, cfg, c)) :
           /\ cfg' = Settle(M, c2, FUELL) /\ hist' = Append(hist, c) /\ cid' = cid
-          /\ st' = IF amb THEN "amb" ELSE IF c2.st \in {"run"} THEN "run" ELSE "end"
+          /\ st' = IF amb \/ c2.st = "amb" THEN "amb" ELSE IF c2.st \in {"run"} THEN "run" ELSE "end"
+          /\ (c2.st = "amb") => PrintT("@@" \o ToJson([kind |-> "AMBIGUOUS", cid |-> cid, hist |-> Append(hist, c), top |-> "tie"]))
 
 Next == Start \/ \E c \in Cases[cid].syms : Sym(c)
 Spec == Init /\ [][Next]_vars
